@@ -3,4 +3,4 @@
 set -e
 REPO=${3:-/repo}
 c++ -std=c++20 -O1 -g -I$REPO/src -I$REPO/_build -I/usr/include/jsoncpp -DMESON_BUILD -D_FILE_OFFSET_BITS=64 -pthread \
-  "$1" -o "$2" -Wl,--whole-archive $REPO/_build/liboomd.a -Wl,--no-whole-archive -ljsoncpp -lsystemd -lstdc++fs
+  "$1" -o "$2" -ldl -Wl,--whole-archive $REPO/_build/liboomd.a -Wl,--no-whole-archive -ljsoncpp -lsystemd -lstdc++fs
